@@ -206,7 +206,16 @@ impl Remover {
                     Some(current + (end_cursor - start_cursor).max(0) + 1),
                 ));
                 if start_cursor < end_cursor {
-                    acc.extend(child_markers[start_cursor..end_cursor].to_owned());
+                    // Pair indices of nested markers are relative to `child_markers`;
+                    // rebase them onto `acc`.
+                    acc.extend(child_markers[start_cursor..end_cursor].iter().map(
+                        |(range, pair)| {
+                            (
+                                range.clone(),
+                                pair.map(|pair| (pair + current + 1).saturating_sub(start_cursor)),
+                            )
+                        },
+                    ));
                 }
                 acc.push((end_marker, Some(current)));
             } else {
